@@ -1257,12 +1257,13 @@ static void initializer2(Token **rest, Token *tok, Initializer *init) {
       return;
     }
 
-    // A struct can be initialized with another struct. E.g.
-    // `struct T x = y;` where y is a variable of type `struct T`.
-    // Handle that case first.
+    // A struct can be initialized with another struct of the same
+    // type. E.g. `struct T x = y;` where y is a variable of type
+    // `struct T`. Handle that case first. A struct of another type
+    // initializes the first member as usual.
     Node *expr = assign(rest, tok);
     add_type(expr);
-    if (expr->ty->kind == TY_STRUCT) {
+    if (expr->ty->kind == TY_STRUCT && is_compatible(expr->ty, init->ty)) {
       init->expr = expr;
       return;
     }
